@@ -179,13 +179,13 @@ def barsLoop (bars : List SBar) (chans : List Int) (length0 : Rat) :
           barsLoop bars chans length0 fuel st bpm tick cur playing
 
 /-- `[length, nc, chan, n] == [length', nc', chan', n']` as Python compares lists: element by element, stopping at the first
-    difference; comparing a NoteContainer with None raises TypeError (`len(None)`) -/
+    difference; a NoteContainer and None (a rest) are unequal (before the repair 8b1047f that comparison raised TypeError) -/
 def playingEq (a b : Playing) : Except Err Bool :=
   if a.length ≠ b.length then pure false
   else match a.nc, b.nc with
     | none, none => pure (a.chan == b.chan && a.n == b.n)
     | some x, some y => if NC.eq x y then pure (a.chan == b.chan && a.n == b.n) else pure false
-    | _, _ => .error .type
+    | _, _ => pure false
 
 /-- `playing.remove(p)` where `p` is the element at index `i`: the first element equal to `p` goes (at the latest `p` itself) -/
 def removeFirst (p : Playing) (i : Nat) : Nat → List Playing → Except Err (List Playing)
